@@ -123,6 +123,35 @@ func genC04(out, tier string, rng *rand.Rand) {
 			}
 		}
 	}
+	// a resumable session carries its conditions from the request that opened it to the request that
+	// sends the last byte: whatever happens to the object in between (metadata patch, overwrite,
+	// delete, nothing), they are judged against the object as it is when the upload is performed
+	ct := "text/between"
+	between := [][]Req{
+		nil,
+		{{Kind: "patch", B: c04Bucket, N: "obj", Patch: &Patch{CType: &ct}, CP: noConds}},
+		{{Kind: "upload_media", B: c04Bucket, N: "obj", CType: "text/plain", Data: []byte("v3"), CP: noConds}},
+		{{Kind: "delete", B: c04Bucket, N: "obj", CP: noConds}},
+		{{Kind: "delete", B: c04Bucket, N: "obj", CP: noConds}, {Kind: "upload_media", B: c04Bucket, N: "obj", CType: "text/plain", Data: []byte("v4"), CP: noConds}},
+	}
+	cr := "bytes 0-2/3"
+	for _, mk := range stores() {
+		for state := 0; state < 4; state++ {
+			for param := 0; param < 4; param++ {
+				for _, kind := range []int{1, 2, 3} {
+					for bi, mid := range between {
+						cp := [4]CParam{Raw(""), Raw(""), Raw(""), Raw("")}
+						cp[param] = condValue(kind, param, c04Bucket, "obj")
+						prog := append(append([]Req{}, c04Setup(state)...), Req{Kind: "resumable_init", B: c04Bucket, Up: &UpMeta{Name: "obj", CType: "text/new"}, CP: cp})
+						prog = append(prog, mid...)
+						prog = append(prog, Req{Kind: "resumable_put", B: c04Bucket, ID: "#0", CRange: &cr, Data: []byte("NEW")})
+						prog = append(prog, probes...)
+						tasks = append(tasks, Task{mk, "session-conditions", prog, bi != 0})
+					}
+				}
+			}
+		}
+	}
 	RunTasks(sink, tasks)
 	// ... then the same conditions revisited inside random histories
 	nh := 150
@@ -139,6 +168,6 @@ func genC04(out, tier string, rng *rand.Rand) {
 	RunTasksNT(sink, htasks, histNontrivial)
 	sink.Close("complete truth table: 4 condition parameters x {unset, =current, current-1 (generation) or current+1 (metageneration), \"0\", \"-7\", \"12x\"} x object state "+
 		"{absent, fresh, patched, overwritten} x operation {media, multipart, resumable, patch, delete, compose destination, compose source} x store {mem, file}; "+
-		"each case = setup + operation + metadata/media GET of every object; distinct = distinct canonical (program, observation) text; "+
+		"plus resumable sessions whose object is patched / overwritten / deleted / re-created between the opening request and the last byte (tag session-conditions); each case = setup + operation + metadata/media GET of every object; distinct = distinct canonical (program, observation) text; "+
 		"non-trivial = at least one condition parameter supplied; followed by random histories (tag history) with conditions on one request in three", true)
 }
